@@ -72,7 +72,7 @@ def make_scenario(seed):
     }
     if n_coll > 1:
         conf["prefixes"] = [f"c{i}" for i in range(n_coll)] if rng.random() < 0.7 else None
-    n_guess = int(tabs[0]["n_spectra"] * (1 + tabs[0]["max_per_spectrum"]) / 2)
+    n_guess = len(W.build_conf_table(tabs[rng.randrange(len(tabs))])["rows"])  # exact row count of one collection
     kn = {}
     if rng.random() < 0.85:
         kn["CONFIDENCE_CHUNK_SIZE"] = datagen.knob_value(rng, n_guess)
